@@ -113,7 +113,9 @@ fn in_domain(spec: &EnumSpec) -> bool {
         None => return false,
     };
     let r = repr_of(spec);
-    let (lo, hi) = if !has_int_repr(spec) { (0, isize::MAX as i128) } else { repr_range(&r) };
+    // repr(C) without an integer type: the tag is C's int-sized by default, discriminants are kept within 0..=i32::MAX
+    let is_c = spec.repr.as_ref().map(|r| r.split(|c: char| !(c.is_alphanumeric() || c == '_')).any(|t| t == "C")).unwrap_or(false);
+    let (lo, hi) = if !has_int_repr(spec) { (0, if is_c { i32::MAX as i128 } else { isize::MAX as i128 }) } else { repr_range(&r) };
     if ds.iter().any(|d| *d < lo || *d > hi) {
         return false;
     }
@@ -130,7 +132,7 @@ fn in_domain(spec: &EnumSpec) -> bool {
         return false;
     }
     // rustc: `repr(C, int)` is only meaningful (and only accepted without a conflict) on enums with fields
-    if spec.repr.as_deref().map(|r| r.starts_with("C,")).unwrap_or(false) && !has_data {
+    if spec.repr.as_deref().map(|r| r.starts_with("C,")).unwrap_or(false) && has_int_repr(spec) && !has_data {
         return false;
     }
     // a typed const can only be used when the discriminant type is named by #[repr]
@@ -179,7 +181,8 @@ pub fn programs(tier: Tier) -> ProgramSet {
                 }));
             }
             // several repr hints in one attribute / in two attributes: the integer type must still be found
-            for r in ["C, u8", "align(4), u8", "i16, align(8)", "u8;align(2)", "align(2);i8"] {
+            // .. and hints WITHOUT an integer type leave the argument type at usize (repr(C) does not make it a C int)
+            for r in ["C, u8", "align(4), u8", "i16, align(8)", "u8;align(2)", "align(2);i8", "C", "C, align(8)", "align(4);C", "align(2)"] {
                 let r2 = r.to_string();
                 devs.push(dev(format!("repr({})", r.replace(';', ")] #[repr(")), &["repr"], move |s| {
                     s.repr = Some(r2.clone());
